@@ -260,13 +260,55 @@ func c15Run(ci interface{}, r *core.Rec) {
 				return nil
 			}
 		}
-		for _, op := range []string{"verify", "verify-all", "repair", "staged-repair"} {
+		for _, op := range []string{"verify", "verify-all", "repair", "staged-repair", "staged-retry", "staged-twice"} {
 			if op == "verify-all" && c.Fmt == "p2" {
 				continue
 			}
 			var err error
 			pi := core.Catch(func() {
 				switch {
+				case op == "staged-retry" || op == "staged-twice":
+					// a caller that keeps going on ONE Decoder object whatever the calls return: every stage retried at once
+					// (load, load, parity, parity, repair, repair), or the whole procedure run twice. A refusal that holds
+					// only for the first call is no refusal.
+					type dec interface {
+						LoadFileData() error
+						LoadParityData() error
+					}
+					var d dec
+					var rep func() error
+					if c.Fmt == "p2" {
+						d2, e := par2.VerifNewDecoder(fs, par2.DoNothingDecoderDelegate{}, index, 1)
+						if e != nil {
+							err = e
+							return
+						}
+						d, rep = d2, func() error { _, e := d2.Repair(false); return e }
+					} else {
+						d1, e := par1.VerifNewDecoder(fs, par1.DoNothingDecoderDelegate{}, index)
+						if e != nil {
+							err = e
+							return
+						}
+						d, rep = d1, func() error { _, e := d1.Repair(false); return e }
+					}
+					seq := "LLPPRR"
+					if op == "staged-twice" {
+						seq = "LPRLPR"
+					}
+					for _, st := range seq {
+						// a panic on an object whose earlier call failed is outside well-formed use: contained, not judged
+						core.Catch(func() {
+							switch st {
+							case 'L':
+								err = d.LoadFileData()
+							case 'P':
+								err = d.LoadParityData()
+							default:
+								err = rep()
+							}
+						})
+					}
 				case op == "staged-repair" && c.Fmt == "p2":
 					// the staged exported API behind Repair, used directly
 					var d *par2.Decoder
@@ -444,7 +486,7 @@ func init() {
 	core.Register(&core.Prop{
 		ID:    "C15",
 		Level: "model_checking",
-		Rule: "bounded-exhaustive declared names: every path built from components {a, .., ., empty, a.., ..a} of length 1-4 (thorough 1-5), each with/without a leading and a trailing slash, plus '..' look-alikes with a control character inside / before / after, backslash, NUL, drive-letter, UNC, long-traversal and non-ASCII (UTF-8, Latin-1, invalid UTF-8) spellings and absolute paths into a canary tree; in each position of a 2-file set; PAR1 and PAR2 archives written by the reference writers as fully repairable sets whose declared files are x {missing, present in the archive directory but damaged, present and intact (PAR1)}; the hostile entry also declared with length 0; short names also with the first file write of Repair failing (a fallback location must stay inside too); real Verify (PAR1: also with the full parity check) and Repair, plus the staged Decoder API behind Repair used directly (NewDecoder, LoadFileData, LoadParityData, Repair); PAR1 also with the hostile entry listed but not saved in the parity set. Real-directory runs execute from a third directory inside the canary tree, so anything resolved against the current directory is seen. All names run on the recording in-memory filesystem; names shorter than 9 characters (thorough: 12) additionally on a real directory with a canary tree (byte snapshot of everything around the archive directory before/after). PAR2 Create with inputs outside the index directory in 10 spellings. " +
+		Rule: "bounded-exhaustive declared names: every path built from components {a, .., ., empty, a.., ..a} of length 1-4 (thorough 1-5), each with/without a leading and a trailing slash, plus '..' look-alikes with a control character inside / before / after, backslash, NUL, drive-letter, UNC, long-traversal and non-ASCII (UTF-8, Latin-1, invalid UTF-8) spellings and absolute paths into a canary tree; in each position of a 2-file set; PAR1 and PAR2 archives written by the reference writers as fully repairable sets whose declared files are x {missing, present in the archive directory but damaged, present and intact (PAR1)}; the hostile entry also declared with length 0; short names also with the first file write of Repair failing (a fallback location must stay inside too); real Verify (PAR1: also with the full parity check) and Repair, plus the staged Decoder API behind Repair used directly (NewDecoder, LoadFileData, LoadParityData, Repair - stopping at the first error, and by a caller that keeps going on the same object: every stage called twice, and the whole procedure twice); PAR1 also with the hostile entry listed but not saved in the parity set. Real-directory runs execute from a third directory inside the canary tree, so anything resolved against the current directory is seen. All names run on the recording in-memory filesystem; names shorter than 9 characters (thorough: 12) additionally on a real directory with a canary tree (byte snapshot of everything around the archive directory before/after). PAR2 Create with inputs outside the index directory in 10 spellings. " +
 			"Oracle: every write path, cleaned, lies inside the index directory tree (PAR1: directly in it); nothing outside changes or appears; Create refuses. non-trivial = every case (each declares a hostile or boundary name)",
 		Assumptions: []string{"reads outside the directory are counted in evidence but are not an alarm (the statement constrains create/modify/delete)", "Linux path semantics: backslash is an ordinary character"},
 		NewCase:     func() interface{} { return &c15Case{} },
